@@ -185,6 +185,8 @@ package keeper
 //@ ensures C10/healthy-position-left-alone: !closeAttempted ==> !bankTouched(ctx) && posHas(ctx, unbech32(position.Address), position.Id) && posRow(ctx, unbech32(position.Address), position.Id).LeveragedLpAmount == old(position.LeveragedLpAmount) && posRow(ctx, unbech32(position.Address), position.Id).Collateral.Amount == old(position.Collateral.Amount) && principalOf(ctx, a) == old(principalOf(ctx, a))
 //@ ensures C02/amm-shares-in-step: shareGap(ctx, p) == old(shareGap(ctx, p))
 //@ assumes unbech32(position.Address) != modAddr("commitment")
+//@ nopanic
+//@ ensures C18/recovers-from-any-panic: true
 
 //@ func (Keeper).CheckAndCloseAtStopLoss
 //@ forall p Int
@@ -202,6 +204,8 @@ package keeper
 //@ ensures C10/position-above-stop-loss-left-alone: !closeAttempted ==> !bankTouched(ctx) && posHas(ctx, unbech32(position.Address), position.Id) && posRow(ctx, unbech32(position.Address), position.Id).LeveragedLpAmount == old(position.LeveragedLpAmount) && posRow(ctx, unbech32(position.Address), position.Id).Collateral.Amount == old(position.Collateral.Amount) && principalOf(ctx, a) == old(principalOf(ctx, a))
 //@ ensures C02/amm-shares-in-step: shareGap(ctx, p) == old(shareGap(ctx, p))
 //@ assumes unbech32(position.Address) != modAddr("commitment")
+//@ nopanic
+//@ ensures C18/recovers-from-any-panic: true
 
 //@ func (Keeper).CloseLong
 //@ forall p Int
@@ -299,6 +303,9 @@ package keeper
 //@ ensures C08/pool-total-in-step-with-positions: lpPoolGap(ctx, p) == old(lpPoolGap(ctx, p))
 //@ ensures C08/counter-in-step: lpCountGap(ctx) == old(lpCountGap(ctx))
 //@ ensures C02/amm-shares-in-step: shareGap(ctx, p) == old(shareGap(ctx, p))
+//@ nopanic
+//@ ensures C18/begin-block-completes: true
 
 // ---- C10: others close a position only when allowed; opens start healthy ---------------------------------
 // (clauses added to the contracts above)
+
